@@ -234,11 +234,38 @@ NEEDS_R5 = {
  "C18-m2": ("char_gen.go + trace.go: a trace hook logging rejected candidates in a file whose constraint line reads `// go:build spgtrace` (the space makes it a comment: always compiled)", "a recipe with requirements and a first candidate that fails them"),
 }
 
+NEEDS_R6 = {
+ "C04-m1": ("util.go randomUint32: one rand.Reader.Read into a stack array, the byte count ignored", "a source that returns fewer than 4 bytes per read"),
+ "C04-m2": ("word_gen.go Generate: strings.Title(strings.ToLower(w)) at capitalised positions — entries differing only in inner case produce the same token", "a list with iPhone/iphone-style pairs and a capitalised position landing on one"),
+ "C04-m3": ("word_gen.go Generate: a drawn empty-string entry is redrawn (i--; continue) — the blank member is never chosen although Size and entropy count it", "a list containing \"\" plus another entry, and a draw selecting the blank"),
+ "C04-m4": ("word_gen.go Generate: a separator function returning \"\" falls back to SeparatorChar", "both separator fields set and a function that can return the empty string"),
+ "C05-m1": ("password.go String(): built through a []rune — bytes that are not valid UTF-8 become U+FFFD", "a list entry that is not valid UTF-8 at a position that is not title-cased"),
+ "C05-m2": ("word_gen.go Generate: an empty generated separator falls back to SeparatorChar", "SeparatorChar set together with a function returning \"\" (SFNone)"),
+ "C05-m3": ("word_gen.go Generate: capitalisation gated by isAllCapitalizable() ('every entry changes under Title' instead of 'some entry does')", "a list with one caseless entry among lower-case words and a capitalising scheme"),
+ "C05-m4": ("word_gen.go Generate: the atom guard len(w) > 0 becomes len(strings.TrimSpace(w)) > 0", "a whitespace-only list entry drawn"),
+ "C07-m1": ("char_strength.go n(): the leaf exponent kept in one package-level *big.Int", "several goroutines inside Entropy() at once with different Length and a required set"),
+ "C07-m2": ("char_gen.go/char_sets.go: custom required sets named after their characters, a set whose name is already present is skipped", "a RequireSets entry literally \"Digits\" (or another class name) with that class required"),
+ "C07-m3": ("char_gen.go buildCharacterList: the empty-entry skip becomes len(strings.TrimSpace(s)) > 0", "a required set made entirely of whitespace"),
+ "C07-m4": ("char_gen.go: NewCharRecipe allocates a `last` pointer; Entropy() reuses its previous result while a key without the contents of RequireSets is unchanged", "a constructed recipe asked once whose RequireSets contents are then replaced in place"),
+ "C10-m1": ("word_gen.go NewWordList: a twin is found by looking up strings.ToLower(w) and checking that it titles back to w", "a base word with an inner capital together with its title form (iPhone/IPhone)"),
+ "C10-m2": ("word_gen.go NewWordList: a leading U+FEFF is trimmed from the element at index 0 only", "a BOM-prefixed word in first position"),
+ "C10-m3": ("word_gen.go NewWordList: words sorted case-insensitively and twins removed by a sweep over neighbours only", "three case-spellings of one word and a map order leaving the third between the twin pair (about 1 construction in 10)"),
+ "C10-m4": ("word_gen.go Generate: strings.Title(strings.ToLower(w)) at capitalised positions", "a kept word with an inner capital at a capitalised position"),
+ "C15-m1": ("char_strength.go n(): a shared package-level big one for one-character alphabets, zeroed by the in-place Sub of a later recursion", "an earlier recipe with nested required sets leaving exactly one other allowed character"),
+ "C15-m2": ("util.go randomUint32n: a 256-slot table of rejection bounds written for n < 256 but read through uint8(n) for every n", "a draw over a small n, a later draw over n + 256k, and a raw word at the top of the range"),
+ "C15-m3": ("word_gen.go Generate: a drawn empty-string entry is deleted from the shared *WordList and redrawn", "a list containing \"\" and a draw that hits it: every later recipe on that list changes"),
+ "C15-m4": ("char_gen.go Generate: trial token slices from a sync.Pool, put back before the filter decides — a held result is overwritten by a later Generate", "an earlier successful call on a recipe with requirements whose *Password is still held"),
+ "C16-m1": ("word_gen.go NewSFFunction: each separator call lowers MaxTrials to 20 and restores it only on success", "a constructed separator that fails under 20 attempts, then reading MaxTrials"),
+ "C16-m2": ("char_gen.go buildCharacterList: a required class is added only when charTypeNamesByFlag has a name for it (Ambiguous has none)", "Require: Ambiguous"),
+ "C16-m3": ("util.go subtractString + char_gen.go: exclusion through a regexp bracket class built with QuoteMeta — `.-_` in the symbols becomes a range", "Exclude: Symbols (also removes digits and upper-case letters, keeps '-')"),
+ "C16-m4": ("char_gen.go NewCharRecipe: early return for length < 1 before the defaults are set", "NewCharRecipe(0) or a negative length"),
+}
+
 
 def main():
     src = sys.argv[1]
     rnd = sys.argv[2] if len(sys.argv) > 2 else ""        # "" for round 1, "r2" for round 2
-    needs = NEEDS_R5 if rnd == "r5" else NEEDS_R4 if rnd == "r4" else NEEDS_R3 if rnd == "r3" else NEEDS_R2 if rnd == "r2" else NEEDS
+    needs = NEEDS_R6 if rnd == "r6" else NEEDS_R5 if rnd == "r5" else NEEDS_R4 if rnd == "r4" else NEEDS_R3 if rnd == "r3" else NEEDS_R2 if rnd == "r2" else NEEDS
     verify = {}
     vf = os.path.join(src, "verify.jsonl")
     if os.path.exists(vf):
